@@ -741,6 +741,31 @@ func (c01) Run(ctx *Ctx, ci interface{}) (o Outcome) {
 		case "trim-names-auto":
 			modelled = false
 			id := 1
+			if op.Flag && !m.dupNames() && n > 0 {
+				// the second alignment of a file under `trim name -a`: a copy with the same names went through the
+				// map first, so every name is already a key of it - same names in, same short names out
+				amap := map[string]string{}
+				first, cerr := cont.CloneSeqBag()
+				if cerr != nil {
+					fail("unexpected-error", "CloneSeqBag returns %v", cerr)
+					return
+				}
+				if err := first.TrimNamesAuto(amap, &id); err != nil {
+					fail("unexpected-error", "TrimNamesAuto returns %v", err)
+					return
+				}
+				want, _ := observe(first)
+				if err := cont.TrimNamesAuto(amap, &id); err != nil {
+					fail("unexpected-error", "TrimNamesAuto returns %v", err)
+					return
+				}
+				for i := range m.rows {
+					m.rows[i].Name = want[i].Name
+				}
+				modelled = true
+				o.Add("probe_trim_names_auto_with_a_map_that_knows_every_name", 1)
+				break
+			}
 			cont.TrimNamesAuto(map[string]string{}, &id)
 		case "sort":
 			sort.SliceStable(m.rows, func(a, b int) bool { return m.rows[a].Name < m.rows[b].Name })
